@@ -87,7 +87,7 @@ package searcher
 //@   modifies fields(DisjunctionHeapSearcher), fields(SearcherCurr), mem(*SearcherCurr), mem(*search.DocumentMatch), mem(int), fields(search.DocumentMatch), search.DocumentMatch.holder, search.Searcher.started, search.Searcher.last, search.Searcher.done, search.DocumentMatchPool.avail
 //@   at call searcherCurr.searcher.Advance#0 after: ghost result0.holder = searcherCurr
 //@   ensures implies(result1 == nil, s.initialized && dhsInv(s))
-//@   loop 0: invariant dhsShape(s) && s.matchingCurrs == old(s.matchingCurrs) && ctx.DocumentMatchPool != nil
+//@   loop 0: invariant dhsShape(s) && ctx.DocumentMatchPool != nil
 //@   loop 0: invariant forall(k, iter, len(s.matchingCurrs), entryOK(s.matchingCurrs[k]) && !dhas(s, s.matchingCurrs[k])) && forall(p, iter, len(s.matchingCurrs), forall(q, p+1, len(s.matchingCurrs), s.matchingCurrs[p] != s.matchingCurrs[q]))
 //@   loop 1: invariant dhsShape(s) && ctx.DocumentMatchPool != nil && parkedOK(s, s.matchingCurrs, len(s.matchingCurrs))
 //@   loop 2: invariant dhsShape(s) && ctx.DocumentMatchPool != nil
